@@ -11,7 +11,8 @@ CHECKS = {
     "C01": dict(level="exploration", ref="DESIGN.md section 4 C01",
         text="Differential execution of the real compiler's output: every accepted part of the bundled corpus (thorough: all 2181 definitions; quick: stratified sample of 200) "
              "and the 13 sub-routines are compiled in pristine forked children, the emitted IL is executed by an IL evaluator and compared with the behaviour text compiled as C on "
-             "64/256 boundary-biased states per part. Sampling of states is what runtime observation can give for 'all initial states'.",
+             "64/256 boundary-biased states per part (circular-buffer boundary states for every fcirc_add user). The executed C text of 10 bundled routines is also compared with reference models "
+             "of what the routines mean (verif/submodels.py). Sampling of states is what runtime observation can give for 'all initial states'.",
         note=DIFF_NOTE, technique="differential execution: IL interpreter vs C text compiled with gcc + UBSan handlers"),
     "C02": dict(level="exploration", ref="DESIGN.md section 4 C02",
         text="All 1112 operator x type x type cells at depth 1 (exhaustive over cells), depth-2 combinations and random trees; values boundary+random, exhaustive 8-bit operands in thorough; "
@@ -50,7 +51,7 @@ CHECKS = {
         note="Trusted: the stub plugin header in verif/outcheck.py (types of the IL/plugin macros).",
         technique="offline C well-formedness checker + clang -fsyntax-only on recorded outputs"),
     "C12": dict(level="translation_validation", ref="DESIGN.md section 4 C12",
-        text="Per-output validation: ownership counter over every emitted text (one un-DUPed use per pure variable, exactly one use per effect variable, at most one per borrowed parameter, nothing unused).",
+        text="Per-output validation in BOTH layouts: ownership counter over every emitted text (one un-DUPed use per pure variable, exactly one use per effect variable, at most one per borrowed parameter, nothing unused).",
         note="Trusted: every syntactic occurrence in a later initialiser is a use (the IL tree is built eagerly).",
         technique="offline linear-use counter over recorded compiler outputs"),
     "C16": dict(level="exploration", ref="DESIGN.md section 4 C16",
